@@ -7,6 +7,8 @@ namespace CJ.Codec
 theorem Outcome.Safe.ok {α} (a : α) : (Outcome.ok a).Safe := by simp [Outcome.Safe]
 theorem Outcome.Safe.err {α} (e : Err) : (Outcome.err e : Outcome α).Safe := by simp [Outcome.Safe]
 
+theorem Outcome.ok_bind {α β} (a : α) (f : α → Outcome β) : (Outcome.ok a).bind f = f a := rfl
+
 theorem Outcome.Safe.bind {α β} {o : Outcome α} {f : α → Outcome β} (ho : o.Safe) (hf : ∀ a, (f a).Safe) :
     (o.bind f).Safe := by
   cases o with
@@ -190,5 +192,132 @@ theorem wrapObfs4_safe (c : Obfs4Consts) (hc : c.representativeLength ≤ c.clie
   · exact .ok _
   · refine (slice_safe_of (by omega) (by omega)).bind fun _ => ?_
     exact wrapObfs4Loop_safe c data regs
+
+/-! ## `getRemoteAddr`: indexing, `strings.Split` -/
+
+theorem indexAt_eq_ok {α : Type} {l : List α} {i : Int} (h0 : 0 ≤ i) (h1 : i < l.length) :
+    ∃ a, indexAt l i = .ok a ∧ l[i.toNat]? = some a := by
+  have hlt : i.toNat < l.length := by omega
+  refine ⟨l[i.toNat], ?_, ?_⟩
+  · unfold indexAt
+    rw [if_neg (by omega), List.getElem?_eq_getElem hlt]
+  · exact List.getElem?_eq_getElem hlt
+
+theorem indexAt_mem {α : Type} {l : List α} {i : Int} {a : α} (h : indexAt l i = .ok a) : a ∈ l := by
+  unfold indexAt at h
+  split at h
+  · cases h
+  · split at h
+    · rename_i b hb
+      cases h
+      exact List.mem_of_getElem? hb
+    · cases h
+
+theorem indexAt_panic_of_neg {α : Type} (l : List α) {i : Int} (h : i < 0) :
+    indexAt l i = .panic "index out of range" := by
+  unfold indexAt; rw [if_pos h]
+
+theorem indexAt_panic_of_ge {α : Type} (l : List α) {i : Int} (h : (l.length : Int) ≤ i) :
+    indexAt l i = .panic "index out of range" := by
+  unfold indexAt
+  split
+  · rfl
+  · rw [List.getElem?_eq_none (by omega)]
+
+/-- indexing is exactly as partial as Go's: a result iff `0 ≤ i < len(l)` -/
+theorem indexAt_safe_iff {α : Type} (l : List α) (i : Int) : (indexAt l i).Safe ↔ 0 ≤ i ∧ i < l.length := by
+  constructor
+  · intro hs
+    by_cases h0 : i < 0
+    · exact absurd (indexAt_panic_of_neg l h0) (hs.1 _)
+    · by_cases h1 : (l.length : Int) ≤ i
+      · exact absurd (indexAt_panic_of_ge l h1) (hs.1 _)
+      · omega
+  · intro ⟨h0, h1⟩
+    obtain ⟨a, ha, _⟩ := indexAt_eq_ok h0 h1
+    rw [ha]; exact .ok a
+
+theorem splitOnAux_ne_nil (sep : UInt8) : ∀ (s cur : Bytes), splitOnAux sep s cur ≠ [] := by
+  intro s
+  induction s with
+  | nil => intro cur; simp [splitOnAux]
+  | cons b rest ih =>
+    intro cur
+    unfold splitOnAux
+    split
+    · simp
+    · exact ih _
+
+/-- `strings.Split` never returns the empty slice (for a non-empty separator) -/
+theorem splitOn_ne_nil (sep : UInt8) (value : Bytes) : splitOn sep value ≠ [] :=
+  splitOnAux_ne_nil sep value []
+
+theorem splitOnAux_length (sep : UInt8) : ∀ (s cur : Bytes), (splitOnAux sep s cur).length = s.count sep + 1 := by
+  intro s
+  induction s with
+  | nil => intro cur; simp [splitOnAux]
+  | cons b rest ih =>
+    intro cur
+    unfold splitOnAux
+    split
+    · rename_i h; subst h; simp [ih]
+    · rename_i h
+      rw [ih, List.count_cons_of_ne (fun hh => h hh)]
+
+/-- `n` separators give `n + 1` pieces -/
+theorem splitOn_length (sep : UInt8) (value : Bytes) : (splitOn sep value).length = value.count sep + 1 :=
+  splitOnAux_length sep value []
+
+theorem splitOnAux_join (sep : UInt8) : ∀ (s cur : Bytes),
+    [sep].intercalate (splitOnAux sep s cur) = cur.reverse ++ s := by
+  intro s
+  induction s with
+  | nil => intro cur; simp [splitOnAux, List.intercalate]
+  | cons b rest ih =>
+    intro cur
+    unfold splitOnAux
+    split
+    · rename_i h; subst h
+      have hne := splitOnAux_ne_nil b rest []
+      cases hs : splitOnAux b rest [] with
+      | nil => exact absurd hs hne
+      | cons p ps =>
+        have := ih []
+        rw [hs] at this
+        simp only [List.intercalate, List.intersperse, List.flatten_cons] at this ⊢
+        simp_all
+    · rw [ih]; simp
+
+/-- the pieces, joined by the separator, are the value again -/
+theorem splitOn_join (sep : UInt8) (value : Bytes) : [sep].intercalate (splitOn sep value) = value := by
+  simpa [splitOn] using splitOnAux_join sep value []
+
+/-- the general statement: with a splitting function that never answers the empty slice, every index
+expression of `getRemoteAddr` is in range, and the function returns (an address or nil) -/
+theorem getRemoteAddrWith_ok (split : Bytes → List Bytes) (hsplit : ∀ v, split v ≠ []) (remote : Option String)
+    (lb : Bool) (values : List Bytes) (parse : Bytes → Option String) :
+    ∃ ip, getRemoteAddrWith split remote lb values parse = .ok ip := by
+  unfold getRemoteAddrWith
+  split
+  · rename_i hv
+    obtain ⟨value, hval, _⟩ := indexAt_eq_ok (l := values) (i := (values.length : Int) - 1) (by omega) (by omega)
+    rw [hval, Outcome.ok_bind]
+    simp only
+    have hlen : 0 < (split value).length := List.length_pos_iff.mpr (hsplit value)
+    obtain ⟨last, hlast, _⟩ :=
+      indexAt_eq_ok (l := split value) (i := ((split value).length : Int) - 1) (by omega) (by omega)
+    rw [hlast, Outcome.ok_bind]
+    have hch : ∃ c, (if (split value).length > 1 ∧ lb = true then
+        indexAt (split value) (((split value).length : Int) - 2) else Outcome.ok last) = .ok c := by
+      split
+      · rename_i h2
+        obtain ⟨prev, hprev, _⟩ :=
+          indexAt_eq_ok (l := split value) (i := ((split value).length : Int) - 2) (by omega) (by omega)
+        exact ⟨prev, hprev⟩
+      · exact ⟨_, rfl⟩
+    obtain ⟨c, hc⟩ := hch
+    rw [hc, Outcome.ok_bind]
+    split <;> exact ⟨_, rfl⟩
+  · exact ⟨_, rfl⟩
 
 end CJ.Ingress
